@@ -85,6 +85,28 @@ pub fn gen_c06(tier: &str, seed: u64, out: &mut dyn FnMut(Value)) {
             }
         }
     }
+    // dependency chains deeper than any plausible recursion bound, and wide fans
+    for depth in [8usize, 31, 32, 33, 34, 40, 64, 100] {
+        let mut rules = vec![];
+        for i in 0..depth {
+            let mut ops: Vec<(String, Operand)> = vec![];
+            if i == 0 {
+                ops.push(("$f".into(), Operand::Test { segs: fpath(0), op: 0, lit: Lit::sq("1") }));
+            } else {
+                ops.push(("$d".into(), Operand::Rule(format!("c{}", i - 1))));
+            }
+            let cond = if i % 2 == 1 { Form::Not(Box::new(Form::V("$d".into()))) } else if i == 0 { Form::V("$f".into()) } else { Form::V("$d".into()) };
+            rules.push(SRule {
+                name: format!("c{i}"),
+                ty: Some(if i + 1 == depth { "detection" } else { "dependency" }.into()),
+                ops,
+                cond: Some(cond),
+                severity: Some(1),
+                ..Default::default()
+            });
+        }
+        out(scenario_json(&rules, &events_m, &mut rng, "dependency chain"));
+    }
     // forward, self, unknown and disabled references: the compiler must reject them
     let cfg = Cfg { bad_ref_prob: (1, 4), disabled_prob: (1, 5), max_rules: 5, n_events: 3, ..Cfg::default() };
     gen_random(&mut rng, &cfg, if thorough { 100000 } else { 6000 }, "bad / disabled references", (1, 8), out);
@@ -265,6 +287,7 @@ pub fn gen_c09(tier: &str, seed: u64, out: &mut dyn FnMut(Value)) {
         FieldValue::String("-9223372036854775808".into()), FieldValue::String("0xffffffffffffffff".into()), FieldValue::Some, FieldValue::None,
         FieldValue::Bool(false),
     ];
+    gen_derived(&mut rng, if tier == "thorough" { 10000 } else { 1000 }, "events served by derived getters (non-UTF-8 paths, NaN, extremes)", out);
     let n = if tier == "thorough" { 100000 } else { 6000 };
     for _ in 0..n {
         let cfg = Cfg { max_rules: 6, dep_prob: (1, 2), ..Cfg::default() };
